@@ -4,7 +4,7 @@ extracted model on the same `ren` requests, parsing the answers."""
 import os, re, bisect
 import vlib
 
-COQ = os.path.join(vlib.VERIF, 'coq')
+COQ = vlib.COQ
 
 
 def _defn(text, name):
